@@ -64,6 +64,20 @@ def merge_stats(ctx, names):
     return counters, samples
 
 
+def shared_file(ctx, pkgname, in_cp):
+    """instantiate harness/overlay/c17_shared.go.tmpl for one package"""
+    from verifkit import VERIF
+    t = open(os.path.join(VERIF, "harness", "overlay", "c17_shared.go.tmpl")).read()
+    t = t.replace("__PKG__", pkgname)
+    if in_cp:
+        t = t.replace("__CPIMPORT__", "").replace("__CP__", "")
+    else:
+        t = t.replace("__CPIMPORT__", '\t"github.com/daeuniverse/dae/pkg/config_parser"').replace("__CP__", "config_parser.")
+    out = os.path.join(ctx.out, f"c17_shared_{pkgname}_test.go")
+    open(out, "w").write(t)
+    return out
+
+
 def run(ctx):
     ctx.trusted += [
         "ANTLR runtime + generated dae_config lexer/parser: modelled from the serialized ATN (grammar rules, longest match, non-greedy string/comment rules); tied differentially on every run, not proved",
@@ -74,7 +88,7 @@ def run(ctx):
     ctx.required_theorems(REQUIRED)
 
     # ---- part 1: Parse
-    binp = ctx.go_test_build("pkg/config_parser", ["pkg/config_parser/c17_test.go"], "c17parse", tags="")
+    binp = ctx.go_test_build("pkg/config_parser", ["pkg/config_parser/c17_test.go", shared_file(ctx, "config_parser", True)], "c17parse", tags="")
     if not binp:
         return 2
     res = run_shards(ctx, binp, "TestVerifC17Parse", "c17p", SHARDS)
@@ -84,6 +98,32 @@ def run(ctx):
             ctx.say("HARNESS-FAILED", out[-3000:])
             return 2
     n_parse = drive_and_diff(ctx, names, "config_parser.Parse")
+
+    # ---- part 2: config.New, Merger, paths
+    binc = ctx.go_test_build("config", ["config/c17_test.go", shared_file(ctx, "config", False)], "c17config", tags="")
+    if not binc:
+        return 2
+    res = run_shards(ctx, binc, "TestVerifC17Config", "c17c", 2)
+    cnames = [f"c17c{i}" for i in range(2)]
+    for i, (rc, out) in enumerate(res):
+        if rc != 0 or not os.path.exists(os.path.join(ctx.out, cnames[i] + ".ops")):
+            ctx.say("HARNESS-FAILED", out[-3000:])
+            return 2
+    n_conf = drive_and_diff(ctx, cnames, "config.New / Merger / paths")
+    names += cnames
+
+    # ---- part 3: rule compilation (size limit) and the whole pipeline under recover
+    binz = ctx.go_test_build("control", ["control/c17_test.go", shared_file(ctx, "control", False)], "c17compile")
+    if not binz:
+        return 2
+    res = run_shards(ctx, binz, "TestVerifC17Compile", "c17z", 2)
+    znames = [f"c17z{i}" for i in range(2)]
+    for i, (rc, out) in enumerate(res):
+        if rc != 0 or not os.path.exists(os.path.join(ctx.out, znames[i] + ".ops")):
+            ctx.say("HARNESS-FAILED", out[-3000:])
+            return 2
+    n_comp = drive_and_diff(ctx, znames, "rule compilation / pipeline")
+    names += znames
     counters, samples = merge_stats(ctx, names)
 
     distinct = set()
@@ -96,4 +136,4 @@ def run(ctx):
     ctx.assumptions = ["inputs are generated (seeded): grammar-directed texts, token-level near-misses of them, random bytes"]
     return ctx.finish(rule="one evaluation = one input text run through the real config_parser.Parse and the Lean parse; "
                            "distinct_nontrivial = distinct texts ACCEPTED with at least one section (AST compared field by field)",
-                      evaluations=n_parse, distinct=len(distinct))
+                      evaluations=n_parse + n_conf + n_comp, distinct=len(distinct))
